@@ -6,6 +6,7 @@ seeds="${*:-1 2 3}"
 cd /verif
 for d in seeded/*/; do
   d=${d%/}; prop=$(basename "$d" | cut -c1-3)
+  cw=$(python3 -c "import json,sys; print(json.load(open('$d/meta.json')).get('check_with',''))" 2>/dev/null); [ -n "$cw" ] && prop=$cw
   for s in $seeds; do
     out=$(VERIF_SEED=$s lib/seedrun.sh "$d" "$prop" "$tier" 2>&1 | tail -1)
     echo "$d seed=$s ${out##*-> }"
